@@ -145,6 +145,7 @@ def run(run, tier):
     xsim.run_others(run, 'C09', EoN, sim, tier, per, total, 'valid_transmissions')
     from . import esirx
     esirx.part(run, tier, 'C09', props, per)
+    from . import discx; discx.part(run, tier, 'C09', props, per)
     if not props['ok']:
         run.violation('C09/proof', 'Props/C09.v no longer checks: %s' % props['log'][-400:], {'broken': 'coq/Props/C09.v', 'log': props['log']}, no_input=True)
     C.proof_coverage(run, props, total.n, min(len(total.distinct), total.nontrivial),
